@@ -42,12 +42,37 @@ package relationtuple
 //@   ensures forall i in 0..len(result0) :: result0[i] != nil && result0[i].To != nil
 
 // ---- the string<->UUID mapper as seen by handlers (proved in uuid_mapping.go contracts, C16)
-//@ func (*Mapper).FromTuple
+//@ func mapperDependencies.Config
 //@   trusted
-//@   requires m != nil && ctx != nil
+//@   pure
+//@   ensures result != nil
+
+//@ func (*Mapper).FromTuple
+//@   props C16
+//@   requires m != nil && ctx != nil && m.D != nil
 //@   modifies db
 //@   ensures[C17] read-only-mapper: m.ReadOnly ==> db == old(db)
-//@   ensures err == nil ==> len(res) == len(ts) && (forall i in 0..len(res) :: res[i] != nil)
+//@   ensures err == nil ==> len(res) == len(ts) && (forall i in 0..len(res) :: res[i] != nil && wfsubject(res[i].Subject))
+//@   ensures[C16] object-position-wise: err == nil ==> forall i in 0..len(ts) :: ts[i] != nil && res[i].Relation == ts[i].Relation && res[i].Object == muuid(ts[i].Object)
+//@   ensures[C16] subject-id-position-wise: err == nil ==> forall i in 0..len(ts) :: ts[i].SubjectID != nil ==> istype(res[i].Subject, *SubjectID) && as(res[i].Subject, *SubjectID).ID == muuid(deref(ts[i].SubjectID))
+//@   ensures[C16] subject-set-position-wise: err == nil ==> forall i in 0..len(ts) :: ts[i].SubjectID == nil ==> ts[i].SubjectSet != nil && istype(res[i].Subject, *SubjectSet) && as(res[i].Subject, *SubjectSet).Object == muuid(ts[i].SubjectSet.Object) && as(res[i].Subject, *SubjectSet).Relation == ts[i].SubjectSet.Relation
+//@   loop 1 invariant len(res) == $n
+//@   loop 1 invariant len(s) == 2*$n
+//@   loop 1 invariant onSuccess != nil && onSuccess.err == addr(err)
+//@   loop 1 invariant len(onSuccess.fs) == 2*$n
+//@   loop 1 invariant deref(onSuccess.err) == nil && isnil(u) && nm != nil
+//@   loop 1 invariant fresh(onSuccess) && (isnil(onSuccess.fs) || fresh(onSuccess.fs)) && fresh(res) && fresh(s)
+//@   loop 1 invariant forall j in 0..len(res) :: res[j] != nil && fresh(res[j])
+//@   loop 1 invariant forall j in 0..len(res) :: ts[j] != nil && res[j].Relation == ts[j].Relation && (ts[j].SubjectID != nil || ts[j].SubjectSet != nil)
+//@   loop 1 invariant forall j in 0..len(res) :: res[j].Subject == nil
+//@   loop 1 invariant forall a in 0..len(res) :: forall b in 0..len(res) :: a != b ==> res[a] != res[b]
+//@   loop 1 invariant forall j in 0..len(res) :: s[2*j+1] == ts[j].Object && (ts[j].SubjectID != nil ==> s[2*j] == deref(ts[j].SubjectID)) && (ts[j].SubjectID == nil ==> s[2*j] == ts[j].SubjectSet.Object)
+//@   loop 1 invariant forall q in 0..len(onSuccess.fs) :: q % 2 == 1 ==> isclo(onSuccess.fs[q], "$3") && capt(onSuccess.fs[q], "$3", i) == q / 2 && captptr(onSuccess.fs[q], "$3", mt) == res[q / 2] && captptr(onSuccess.fs[q], "$3", u) == addr(u)
+//@   loop 1 invariant forall q in 0..len(onSuccess.fs) :: (q % 2 == 0 && ts[q / 2].SubjectID != nil) ==> isclo(onSuccess.fs[q], "$1") && capt(onSuccess.fs[q], "$1", i) == q / 2 && captptr(onSuccess.fs[q], "$1", mt) == res[q / 2] && captptr(onSuccess.fs[q], "$1", u) == addr(u)
+//@   loop 1 invariant forall q in 0..len(onSuccess.fs) :: (q % 2 == 0 && ts[q / 2].SubjectID == nil) ==> isclo(onSuccess.fs[q], "$2") && capt(onSuccess.fs[q], "$2", i) == q / 2 && captptr(onSuccess.fs[q], "$2", mt) == res[q / 2] && captptr(onSuccess.fs[q], "$2", u) == addr(u) && capt(onSuccess.fs[q], "$2", t) == ts[q / 2] && capt(onSuccess.fs[q], "$2", n) != nil
+//@   inlined (*success).apply loop 1 invariant forall j in 0..len(res) :: (2*j+1 < $n ==> res[j].Object == u[2*j+1]) && (2*j >= $n ==> res[j].Subject == nil)
+//@   inlined (*success).apply loop 1 invariant forall j in 0..len(res) :: (2*j < $n && ts[j].SubjectID != nil) ==> istype(res[j].Subject, *SubjectID) && as(res[j].Subject, *SubjectID) != nil && as(res[j].Subject, *SubjectID).ID == u[2*j]
+//@   inlined (*success).apply loop 1 invariant forall j in 0..len(res) :: (2*j < $n && ts[j].SubjectID == nil) ==> istype(res[j].Subject, *SubjectSet) && as(res[j].Subject, *SubjectSet) != nil && as(res[j].Subject, *SubjectSet).Object == u[2*j] && as(res[j].Subject, *SubjectSet).Relation == ts[j].SubjectSet.Relation
 
 //@ func (*Mapper).FromSubjectSet
 //@   trusted
